@@ -148,8 +148,21 @@ def run(rep: Report, tier: str) -> None:
             if len(layers) != d:
                 rep.violation(f"{kind} with layers={d} has {len(layers)} layers", c, key="stack_len")
                 continue
+            # module histories: the taus a stack carries are hyper-parameters, not state -- casting / moving / copying the
+            # module must not change them
+            hist = rng.choice([[], ["float"], ["half"], ["bfloat16"], ["to_bf16", "double"], ["deepcopy", "float"], ["half", "float"], ["train_eval"]])
+            modobj = None
+            if hist:
+                import copy as _copy
+                modobj = (M.TransformerDecoder(hidden_size=4, vocab_size=5, layers=d, heads=1, residual_scaling=transformer_residual_scaling_rule(mf, rf)) if kind == "decoder_inline"
+                          else M.TransformerStack(layers=d, hidden_size=4, heads=1, is_causal=True, residual_scaling=transformer_residual_scaling_rule(mf, rf)))
+                for h in hist:
+                    modobj = {"float": lambda z: z.float(), "half": lambda z: z.half(), "bfloat16": lambda z: z.bfloat16(), "to_bf16": lambda z: z.to(torch.bfloat16),
+                              "double": lambda z: z.double(), "deepcopy": lambda z: _copy.deepcopy(z), "train_eval": lambda z: z.eval().train()}[h](modobj)
+                layers = list(modobj.layers) if kind == "decoder_inline" else list(modobj)
+                c = dict(c, module_history=hist)
             for k, layer in enumerate(layers):
-                what = f"{kind}(layers={d}, mult={Fraction(*m)}, ratio={Fraction(*r)}) layer {k} (after the sweep {seq[:n]} at the same depth)"
+                what = f"{kind}(layers={d}, mult={Fraction(*m)}, ratio={Fraction(*r)}) layer {k} (after the sweep {seq[:n]} at the same depth; module history {hist})"
                 if not cmp_tau(rep, layer.mhsa_tau, o[2 * k], what + " mhsa_tau", dict(c, layer=k), key=f"{kind}:mhsa"):
                     break
                 if not cmp_tau(rep, layer.mlp_tau, o[2 * k + 1], what + " mlp_tau", dict(c, layer=k), key=f"{kind}:mlp"):
@@ -199,6 +212,12 @@ def replay(rep: Report, path: str) -> None:
                 layers = list(M.TransformerDecoder(hidden_size=4, vocab_size=5, layers=c["layers"], heads=1, residual_scaling=transformer_residual_scaling_rule(mf, rf)).layers)
             else:
                 layers = list(M.TransformerStack(layers=c["layers"], hidden_size=4, heads=1, is_causal=True, residual_scaling=transformer_residual_scaling_rule(mf, rf)))
+            for h in c.get("module_history", []) if (m, r) == tuple(map(tuple, sweep[-1])) or [m, r] == sweep[-1] else []:
+                import copy as _copy
+                holder = nn_holder = torch.nn.ModuleList(layers)
+                holder = {"float": lambda z: z.float(), "half": lambda z: z.half(), "bfloat16": lambda z: z.bfloat16(), "to_bf16": lambda z: z.to(torch.bfloat16),
+                          "double": lambda z: z.double(), "deepcopy": lambda z: _copy.deepcopy(z), "train_eval": lambda z: z.eval().train()}[h](holder)
+                layers = list(holder)
             for k, layer in enumerate(layers):
                 if not cmp_tau(rep, layer.mhsa_tau, o[2 * k], f"replay {c['mode']} layer {k} mhsa_tau", c, key=f"{c['mode']}:mhsa") or \
                         not cmp_tau(rep, layer.mlp_tau, o[2 * k + 1], f"replay {c['mode']} layer {k} mlp_tau", c, key=f"{c['mode']}:mlp"):
